@@ -561,6 +561,9 @@ def c16(prop, tier, seed, work):
              stores=STORES3, obs=["refs", "sess"], nrepos=3, repos=["a", "a/b", "ab"], sentinel=True, mc_contents=["m1"], mc_depth=(3, 3)),
         dict(name="iso2", profile="iso", contents=["m1", "b3"], algs=["sha256"], depth=(20, 30), num=(10, 100),
              stores=["dir", "mem"], obs=["sess"], nrepos=3, repos=["x/y/z", "x/y", "x"], sentinel=True),
+        # paged referrers (limit 600): the page cache is server wide; its pages must only be served to the repository they belong to
+        dict(name="isopage", profile="iso", contents=["m1", "a1", "a2", "a9"], algs=["sha256"], depth=(26, 40), num=(12, 150),
+             stores=["mem", "dir"], obs=["refs", "sess"], nrepos=2, repos=["a", "a/b"], cfg={"refLimit": 600}),
     ]
     return histories(prop, tier, seed, work, scs, "", "a history is non-trivial if it contains a cross repository mount or uses a session against another repository; distinct = distinct operation sequences",
                      {"UpPost"})
